@@ -55,6 +55,7 @@ class ItemSpec:
         self.ordinal = 1
         self.raw = None
         self.rewrites = []     # (anchor, replacement, note)  -- R12 anchored regions
+        self.optmaps = []      # (receiver expression text, closure parameter)  -- R19
         self.skip_rules = set()
         self.extra_rules = set()
         self.rename = None
@@ -222,6 +223,12 @@ def parse_vspec(path):
                 else:
                     cur_fn.hints.append((m.group(1), m.group(2).replace("¶", "\n"), "\n".join(b)))
                 continue
+            elif d == "@optmap":
+                # R19: @optmap `EXPR.map(|x| `  -- Option::map with a closure that mutates captured state
+                m = re.match(r"`(.*)\.map\(\|(\w+)\| `\s*$", rest)
+                if not m:
+                    raise RsxError(f"{path}:{i+1}: bad @optmap")
+                cur_item.optmaps.append((m.group(1), m.group(2)))
             elif d == "@retype":
                 m = re.match(r"`(.*)`\s*=>\s*`(.*)`\s*$", rest)
                 if not m:
@@ -519,6 +526,24 @@ def build_item(u, spec, twin, gen):
                 red.add(f.body_s, f.body_e, ";", "R8")
                 f.has_body = False
                 f.sig_end = f.body_s
+    # R19: `E.map(|x| BODY)` on an Option, where the closure mutates captured state (no Verus support
+    # for FnOnce closures capturing `&mut self`) -> `match E { None => None, Some(x) => Some(BODY) }`:
+    # the definition of Option::map; refused if BODY contains `return` (it would leave the function
+    # instead of the closure).
+    for (recv, param) in spec.optmaps:
+        head = f"{recv}.map(|{param}| "
+        if text.count(head) != 1:
+            raise RsxError(f"ANCHOR LOST (R19) in {spec.path} :: {spec.header}: `{head}` occurs {text.count(head)} times")
+        a = text.index(head)
+        open_paren = a + len(recv) + len(".map")
+        ot = next(k for k, t in enumerate(itoks) if t.s == open_paren and t.text == "(")
+        ct = rsx.match_close(itoks, ot)
+        body_m = m[itoks[ot].e:itoks[ct].s]
+        if re.search(r"\breturn\b", body_m):
+            raise RsxError("R19: the closure body contains `return`")
+        red.edits = [x for x in red.edits if not (a <= x[0] and x[1] <= a + len(head))]
+        red.add(a, a + len(head), f"match {recv} {{ None => None, Some({param}) => Some(", "R19")
+        red.add(itoks[ct].e, itoks[ct].e, " }", "R19", prio=9)
     # R12 anchored regions
     for (anchor, repl, rtag) in spec.rewrites:
         cnt = text.count(anchor)
